@@ -202,8 +202,72 @@ pub fn c04(args: &Args) -> Report {
 
 // ------------------------------------------------------------------------------------------ C05
 
+/// Result sets far larger than any plausible internal batch size: one author with many events; every plan that can
+/// serve them must return all of them, newest first, and exactly the newest `limit` under a large limit.
+fn c05_bulk(rep: &mut Report, args: &Args) {
+    use pocket_db::{ScreenResult, Store};
+    let n = if args.thorough() { 5000usize } else { 1300 };
+    let dir = workdir().join(format!("c05_bulk_{}", args.seed()));
+    let _ = std::fs::remove_dir_all(&dir);
+    if std::fs::create_dir_all(&dir).is_err() {
+        return;
+    }
+    let store = match Store::new(&dir, vec![]) {
+        Ok(s) => s,
+        Err(_) => return,
+    };
+    let mut rng = hist_rng(args.seed(), 0xC05B, 0);
+    let a = author(0);
+    let mut ids: Vec<(u64, Id32)> = vec![];
+    for k in 0..n {
+        let t = 10_000 + k as u64;
+        let e = Ev::new(SemEvent { id: rng.arr32(), pubkey: a, sig: [0x51; 64], kind: if k % 2 == 0 { 1 } else { 7 }, created_at: t, tags: vec![vec!["t".into(), "bulk".into()]], content: String::new() }).unwrap();
+        if store.store_event(&pocket_types::OwnedEvent(e.bytes.clone())).is_ok() {
+            ids.push((t, e.sem.id));
+        }
+    }
+    ids.sort_by(|x, y| y.0.cmp(&x.0));
+    let rp = json!({"kind":"bulk-query","seed":args.seed(),"events":n});
+    for (nm, f) in [
+        ("author", SemFilter { authors: vec![a], ..SemFilter::empty() }),
+        ("author+kind", SemFilter { authors: vec![a], kinds: vec![1, 7], ..SemFilter::empty() }),
+        ("author+tag", SemFilter { authors: vec![a], tags: vec![("t".into(), vec!["bulk".into()])], ..SemFilter::empty() }),
+        ("kind+tag", SemFilter { kinds: vec![1, 7], tags: vec![("t".into(), vec!["bulk".into()])], ..SemFilter::empty() }),
+        ("tag", SemFilter { tags: vec![("t".into(), vec!["bulk".into()])], ..SemFilter::empty() }),
+        ("scrape", SemFilter { kinds: vec![1, 7], ..SemFilter::empty() }),
+        ("ids", SemFilter { ids: ids.iter().map(|x| x.1).collect(), ..SemFilter::empty() }),
+    ] {
+        for limit in [None, Some((n - 100) as u32)] {
+            let mut g = f.clone();
+            g.limit = limit;
+            let want: Vec<Id32> = ids.iter().take(limit.map(|l| l as usize).unwrap_or(usize::MAX)).map(|x| x.1).collect();
+            let o = match g.to_owned() {
+                Ok(o) => o,
+                Err(_) => continue,
+            };
+            rep.eval(fnv(format!("bulk{nm}{limit:?}").as_bytes()), true);
+            rep.count("bulk_queries");
+            match catch(|| store.find_events(&o, true, 0, 0, |_| ScreenResult::Match).map(|(evs, _)| evs.iter().map(|e| { let mut x = [0u8; 32]; x.copy_from_slice(e.id().as_slice()); x }).collect::<Vec<Id32>>())) {
+                Ok(Ok(got)) => {
+                    if got != want {
+                        let first_bad = got.iter().zip(want.iter()).position(|(x, y)| x != y);
+                        rep.finding(&format!("bulk-query-wrong:{nm}"), &format!("{} stored events of one author, limit {:?}: returned {} events, expected {} (first difference at position {:?})", n, limit, got.len(), want.len(), first_bad), rp.clone());
+                    }
+                }
+                Ok(Err(e)) => rep.finding(&format!("bulk-query-failed:{nm}"), &format!("{e}"), rp.clone()),
+                Err(p) => rep.finding(&format!("query-panic:{}@{}", panic_class(&p.message), p.location), &p.message, rp.clone()),
+            }
+        }
+    }
+    let _ = store.verif_close();
+    let _ = std::fs::remove_dir_all(&dir);
+}
+
 pub fn c05(args: &Args) -> Report {
     let mut rep = Report::new("C05", &args.leg(), &args.tier(), args.seed());
+    if only_index(args).is_none() {
+        c05_bulk(&mut rep, args);
+    }
     let n = if args.thorough() { 4000 } else { 250 };
     let per_state = if args.thorough() { 60 } else { 30 };
     // Directed battery: one designed state (events that match a constraint only through a later tag of the same
@@ -703,8 +767,115 @@ pub fn c12(args: &Args) -> Report {
 
 // ------------------------------------------------------------------------------------------ C16
 
+/// Reopen and rebuild on a large scale: well over a thousand events (a fifth removed again, some replaced, events
+/// larger than a growth chunk among them), extra-table rows and markers; every stored id is compared before and after.
+fn c16_bulk(rep: &mut Report, args: &Args) {
+    use pocket_db::Store;
+    use pocket_types::Id;
+    let n = if args.thorough() { 6000usize } else { 1500 };
+    let dir = workdir().join(format!("c16_bulk_{}", args.seed()));
+    let _ = std::fs::remove_dir_all(&dir);
+    if std::fs::create_dir_all(&dir).is_err() {
+        return;
+    }
+    let mut store = match Store::new(&dir, vec!["xt_bulk"]) {
+        Ok(s) => s,
+        Err(_) => return,
+    };
+    let mut rng = hist_rng(args.seed(), 0xC16B, 0);
+    let mut all: Vec<(Id32, Vec<u8>)> = vec![];
+    for k in 0..n {
+        let kind: u16 = match k % 9 { 3 => 10002, 5 => 30023, _ => 1 };
+        let tags = if kind == 30023 { vec![vec!["d".to_string(), format!("slug{}", k % 40)]] } else { vec![vec!["t".to_string(), "bulk".to_string()]] };
+        let clen = if k % 97 == 0 { 5000 } else { k % 50 };
+        let e = Ev::new(SemEvent { id: rng.arr32(), pubkey: author((k % 3) as u8), sig: [0x51; 64], kind, created_at: 1000 + k as u64, tags, content: "r".repeat(clen) }).unwrap();
+        if store.store_event(&pocket_types::OwnedEvent(e.bytes.clone())).is_ok() {
+            all.push((e.sem.id, e.bytes.clone()));
+        }
+        if k % 5 == 4 {
+            let victim = all[rng.usize_below(all.len())].0;
+            let _ = store.remove_event(Id::from_bytes(victim));
+        }
+    }
+    if let Some(db) = store.extra_table("xt_bulk") {
+        if let Ok(mut txn) = store.write_txn() {
+            for k in 0..300u32 {
+                let _ = db.put(&mut txn, &k.to_be_bytes(), &vec![k as u8; (k % 60) as usize]);
+            }
+            let _ = txn.commit();
+        }
+    }
+    let view = |s: &Store| -> Vec<Option<Vec<u8>>> { all.iter().map(|(id, _)| s.get_event_by_id(Id::from_bytes(*id)).ok().flatten().map(|e| e.as_bytes().to_vec())).collect() };
+    let table = |s: &Store| -> Vec<(Vec<u8>, Vec<u8>)> {
+        let mut v = vec![];
+        if let (Some(db), Ok(txn)) = (s.extra_table("xt_bulk"), s.read_txn()) {
+            if let Ok(it) = db.iter(&txn) {
+                for kv in it.flatten() {
+                    v.push((kv.0.to_vec(), kv.1.to_vec()));
+                }
+            }
+        }
+        v
+    };
+    let before = view(&store);
+    let table_before = table(&store);
+    let live: usize = before.iter().filter(|x| x.is_some()).count();
+    let live_bytes: usize = before.iter().flatten().map(|b| b.len()).sum();
+    for (b, (_, stored)) in before.iter().zip(all.iter()) {
+        if let Some(b) = b {
+            if b != stored {
+                rep.finding("bulk-stored-bytes-differ", "an event read back by id differs from what was stored", json!({"kind":"bulk-lifecycle"}));
+                break;
+            }
+        }
+    }
+    let rp = json!({"kind":"bulk-lifecycle","seed":args.seed(),"events":n});
+    rep.eval(fnv(format!("c16bulk{n}").as_bytes()), live > 0);
+    // reopen
+    let _ = store.verif_close();
+    store = match Store::new(&dir, vec!["xt_bulk"]) {
+        Ok(s) => s,
+        Err(e) => {
+            rep.finding("bulk-reopen-failed", &format!("{e}"), rp);
+            return;
+        }
+    };
+    if view(&store) != before || table(&store) != table_before {
+        rep.finding("bulk-reopen-changed-state", &format!("{} events stored, {live} live: lookups by id or the extra table differ after close + reopen", all.len()), rp.clone());
+    }
+    // rebuild
+    match catch(move || unsafe { store.rebuild() }) {
+        Ok(Ok(s2)) => {
+            if view(&s2) != before || table(&s2) != table_before {
+                let lost = view(&s2).iter().zip(before.iter()).filter(|(a, b)| a != b).count();
+                rep.finding("bulk-rebuild-changed-state", &format!("{} events stored, {live} live: {lost} lookups by id differ after rebuild (or the extra table does)", all.len()), rp.clone());
+            }
+            if let Ok(st) = s2.stats() {
+                if st.event_bytes < 8 + live_bytes || st.event_bytes > 8 + live_bytes + 7 * live {
+                    rep.finding("bulk-rebuild-not-compact", &format!("event_bytes {} for {live} live events of {live_bytes} bytes", st.event_bytes), rp.clone());
+                }
+                if st.index_stats.i_index_entries != live as u64 {
+                    rep.finding("bulk-rebuild-index-count", &format!("id index has {} entries, {live} events are live", st.index_stats.i_index_entries), rp.clone());
+                }
+            }
+            if !dir.join("event.map.bak").exists() || !dir.join("lmdb.bak").exists() {
+                rep.finding("bulk-rebuild-left-no-backup", "event.map.bak / lmdb.bak missing", rp.clone());
+            }
+            rep.count_n("bulk_lifecycle_events", all.len() as u64);
+            rep.count_n("bulk_lifecycle_live_events", live as u64);
+            let _ = s2.verif_close();
+        }
+        Ok(Err(e)) => rep.finding("bulk-rebuild-failed", &format!("{e}"), rp),
+        Err(p) => rep.finding(&format!("rebuild-panic@{}", p.location), &p.message, rp),
+    }
+    let _ = std::fs::remove_dir_all(&dir);
+}
+
 pub fn c16(args: &Args) -> Report {
     let mut rep = Report::new("C16", &args.leg(), &args.tier(), args.seed());
+    if only_index(args).is_none() {
+        c16_bulk(&mut rep, args);
+    }
     let n = if args.thorough() { 5000 } else { 250 };
     for i in 0..n {
         if let Some(x) = only_index(args) {
